@@ -560,6 +560,8 @@ def o_c11_stalled_outcome(scn, obs, runner):
             break     # only the FIRST failing operation is the one that met the silence with a clean stream
         if o["res"] in TIMEOUT_KINDS or o["res"].startswith("err AdbConnectionError"):
             continue
+        if op["op"] == "pull":
+            continue      # C11: "pull may instead report the error met while closing its stream afterwards" (any kind: the stream can be out of frame sync by then)
         if op.get("rt") is None or (op.get("rt") or 0) < 0 or (op.get("tt") is not None and op.get("tt") < 0):
             continue
         fails.append(dict(op=i, why="silent device: %s ended with %s instead of a timeout error" % (op["op"], o["res"][:60])))
